@@ -397,7 +397,8 @@ class Shelxfile():
             word = line[:4]
             # get RESI:
             if line.startswith(('END', 'HKLF')) and self.resi:
-                self.resi.num = 0
+                # The atoms keep their RESI object, only the current residue ends here:
+                self.resi = RESI(self, ['RESI', '0'])
                 if self.debug or self.verbose:
                     print('RESI in line {} was not closed'.format(line_num + 1))
                 # Do not continue here, otherwise HKLF is not parsed
@@ -409,7 +410,8 @@ class Shelxfile():
                 continue
             # Now collect the PART:
             if line.startswith(('END', 'HKLF')) and self.part:
-                self.part.n = 0
+                # The atoms keep their PART object, only the current part ends here:
+                self.part = PART(self, ['PART', '0'])
                 if self.debug or self.verbose:
                     print('PART in line {} was not closed'.format(line_num + 1))
                 # Do not continue here, otherwise HKLF is not parsed
@@ -419,7 +421,8 @@ class Shelxfile():
                 continue
             # collect AFIX:
             if line.startswith(('END', 'HKLF')) and self.afix:
-                self.afix.mn = 0
+                # The atoms keep their AFIX object, only the current AFIX ends here:
+                self.afix = None
                 if self.debug or self.verbose:
                     print('AFIX in line {} was not closed'.format(line_num + 1))
                 # Do not continue here, otherwise HKLF is not parsed
